@@ -281,6 +281,10 @@ def gen_cases(ctx):
         for w, n_keys in ((8192, 3000), (3000, 5000)):
             yield {"type": "big", "cfg": {"kind": "hh", "width": w, "depth": 2, "max_key_len": 8}, "n_keys": n_keys, "seed": int(rng.integers(0, 2**31)),
                    "ks": [0, 1, 2047, 2500, 10**9], "ts": [1, None]}
+        # more than 65536 counters, not a multiple of 65536 (blocked scans have a tail): every stored key must be found
+        for w, d in ((70001, 1), (40000, 2)):
+            yield {"type": "big", "cfg": {"kind": "hh", "width": w, "depth": d, "max_key_len": 8}, "n_keys": 2500, "seed": int(rng.integers(0, 2**31)),
+                   "ks": [10**9, 3], "ts": [1]}
     if ctx.quick or ctx.shard % 4 == 0:
         yield from gen_boundary(rng, ctx)
         yield from gen_midscan(rng, ctx)
@@ -300,7 +304,7 @@ def replay(case, ctx, mon):
 
 
 def floors(mon, ctx):
-    mon.floor("cases with more than 2048 candidates", mon.counters["big_candidate_set_cases"], 2)
+    mon.floor("cases with more than 2048 candidates", mon.counters["big_candidate_set_cases"], 4)
     mon.floor("queries with k == 0", int(0 in mon.classes["k"]), 1)
     mon.floor("queries on the cache-hit path", mon.counters["queries_cache_hit"], 50)
     mon.floor("queries on the cache-miss path", mon.counters["queries_cache_miss"], 50)
